@@ -515,10 +515,8 @@ def _graph_finder(x_matrix, z_matrix, get_ops_data=False):
     h_positions = _position_finder(x_mat)
 
     x_mat, z_mat = sla.hadamard_transform(x_mat, z_mat, h_positions)
-    assert (
-        int(np.round(np.linalg.det(x_mat))) % 2 != 0
-    ), "Stabilizer generators are not independent."
-    x_inv = (np.round(np.linalg.det(x_mat.T) * np.linalg.inv(x_mat.T)) % 2).astype(int)
+    x_inv = _gf2_inverse(x_mat.T)
+    assert x_inv is not None, "Stabilizer generators are not independent."
     final_z = (z_mat.T @ x_inv) % 2
 
     # get position of non-zero diagonal elements in the final Z matrix to find qubits to apply clifford operations on
@@ -540,6 +538,34 @@ def _graph_finder(x_matrix, z_matrix, get_ops_data=False):
     if get_ops_data:
         return state_graph, (h_positions, z_diag_pos)
     return state_graph
+
+
+def _gf2_inverse(matrix):
+    """
+    Inverse of a square binary matrix over GF(2) by Gauss-Jordan elimination (exact for every size, unlike the floating
+    point determinant times inverse, which loses the integers from about 40 qubits on)
+
+    :param matrix: a square binary matrix
+    :type matrix: numpy.ndarray
+    :return: the inverse modulo 2, or None if the matrix is singular over GF(2)
+    :rtype: numpy.ndarray or None
+    """
+    a = np.array(matrix, dtype=int) % 2
+    n = a.shape[0]
+    inv = np.eye(n, dtype=int)
+    for col in range(n):
+        pivots = [row for row in range(col, n) if a[row, col]]
+        if not pivots:
+            return None
+        pivot = pivots[0]
+        if pivot != col:
+            a[[col, pivot]] = a[[pivot, col]]
+            inv[[col, pivot]] = inv[[pivot, col]]
+        for row in range(n):
+            if row != col and a[row, col]:
+                a[row] ^= a[col]
+                inv[row] ^= inv[col]
+    return inv
 
 
 def _phase_correction(stabilizer_tab1, stabilizer_tab2, gate_list):
@@ -564,7 +590,9 @@ def _phase_correction(stabilizer_tab1, stabilizer_tab2, gate_list):
     new_tab = canonical_form(run_circuit(tab1.copy(), gate_list))
     phase_diff = (tab2.phase - new_tab.phase) % 2
     x_mat = np.copy(new_tab.x_matrix)
-    x_inv = (np.round(np.linalg.det(x_mat) * np.linalg.inv(x_mat)) % 2).astype(int)
+    x_inv = _gf2_inverse(x_mat)
+    if x_inv is None:
+        raise np.linalg.LinAlgError("Singular matrix")
     z_ops = (x_inv @ phase_diff) % 2
     phase_correction = [("Z", index) for index, z in enumerate(z_ops) if z]
     return phase_correction
